@@ -20,6 +20,7 @@ def genTables : Tables :=
     outBoolean := Gen.coerceOutBoolean, inBoolean := Gen.coerceInBoolean,
     outTime := Gen.coerceOutTime, inTime := Gen.coerceInTime,
     introTable := Gen.introTable, locateTable := Gen.locateTable, metaLiteral := Gen.metaContainerLiteral,
-    sdlEmptyTokenSpins := Gen.sdlEmptyTokenSpins }
+    sdlEmptyTokenSpins := Gen.sdlEmptyTokenSpins,
+    exeVarTypeOptional := Gen.exeVarTypeOptional }
 
 def main (args : List String) : IO Unit := run genTables args
